@@ -455,6 +455,8 @@ func c02Enumerate(tier string, emit func(core.Case)) {
 	// script / style inside <pre> are still raw text
 	for _, src := range []string{
 		`<svg><style>.a &gt; .b{} &amp; c</style></svg>`, `<svg><script>if (a &lt; b) x</script></svg>`, `<math><style>a &lt; b</style></math>`, `<svg><style>p{}</style><g><style>q &gt; r</style><circle r="1"></circle></g></svg>`,
+		// foreign <style> / <script> (ordinary elements for the parser) inside a line of text, next to an inline element, inside <pre>
+		`<p>chart: <svg><style>a &lt;b&gt; c &amp;amp; d</style></svg> done</p>`, `<div><span>x</span><math><style>a &lt; b</style></math></div>`, `<pre>k <svg><script>if (a &lt; b) &amp;amp;</script></svg></pre>`, `<p>t <svg><title>a &lt;i&gt;</title><style>p &gt; q</style></svg></p>`,
 		`<svg><use xlink:href="#a"></use></svg>`, `<svg xml:lang="en" viewBox="0 0 1 1"><a xlink:href="/x" xlink:title="t &amp; u">k</a></svg>`,
 		// a plain and a namespaced attribute of the same local name on one foreign element
 		`<svg><use href="#i" xlink:href="#j"></use></svg>`, `<svg><use xlink:href="#j" href="#i"></use></svg>`, `<svg lang="de" xml:lang="en"><a title="t" xlink:title="u" xlink:show="new" show="s">k</a></svg>`,
